@@ -55,6 +55,32 @@ func c20Exec(c *engine.Ctx, cs c20Case) {
 		fail("panic", fmt.Sprintf("panic %v\n%s", pn, firstLines(stack, 10)))
 		return
 	}
+	// the returned slice belongs to the caller: overwrite it (and its spare capacity) and simplify
+	// the same input again - the answer must be the same (a result that aliases shared storage,
+	// or storage reused by the next call, shows here)
+	saved := append([]int{}, idx...)
+	if full := idx[:cap(idx)]; len(full) > 0 {
+		for i := range full {
+			full[i] = -7 - i
+		}
+		var again []int
+		if pn, _ := engine.Guard(func() { again = xy.SimplifyFlatCoords(flat, t, cs.Stride) }); pn != nil {
+			fail("panic-after-result-overwritten", fmt.Sprintf("panic %v", pn))
+			return
+		}
+		if fmt.Sprint(again) != fmt.Sprint(saved) {
+			fail("result-shared", fmt.Sprintf("after the caller overwrote the returned slice, the same call returns %v instead of %v", again, saved))
+			return
+		}
+		if len(again) > 0 {
+			again = append(again[:1], 12345) // appending within spare capacity must be harmless too
+		}
+		if pn, _ := engine.Guard(func() { again = xy.SimplifyFlatCoords(flat, t, cs.Stride) }); pn != nil || fmt.Sprint(again) != fmt.Sprint(saved) {
+			fail("result-shared", fmt.Sprintf("after the caller appended to the returned slice, the same call returns %v instead of %v", again, saved))
+			return
+		}
+	}
+	idx = saved
 	if n < 3 {
 		if len(idx) != n {
 			fail("short-input", fmt.Sprintf("indexes %v for %d points", idx, n))
@@ -193,6 +219,29 @@ func c20Run(c *engine.Ctx) {
 			})
 		}
 	}
+	// every point count 0..260 (the quantifier names 0..200; a bit-set, block or table sized by
+	// the count shows at its word and block boundaries): a zig-zag with one displaced point, a
+	// pseudo-random lattice walk and an exactly collinear run
+	c.Parallel(261, func(n int) {
+		zig := make([]ref.F, 0, 2*n)
+		walk := make([]ref.F, 0, 2*n)
+		line := make([]ref.F, 0, 2*n)
+		for i := 0; i < n; i++ {
+			y := float64(i % 2)
+			if i == n/2 {
+				y = 3
+			}
+			zig = append(zig, ref.F(i), ref.F(y))
+			walk = append(walk, ref.F((i*7919)%101), ref.F((i*104729+i*i)%97))
+			line = append(line, ref.F(3*i), ref.F(-2*i))
+		}
+		for ti, t := range []float64{0, 0.5, 1, 2.5, 40} {
+			c.Count("every_count_cases", 3)
+			c20Exec(c, c20Case{Pts: zig, Threshold: ref.F(t), Stride: 2 + (n+ti)%4})
+			c20Exec(c, c20Case{Pts: walk, Threshold: ref.F(t), Stride: 2 + (n+ti+1)%4})
+			c20Exec(c, c20Case{Pts: line, Threshold: ref.F(t), Stride: 2 + (n+ti+2)%4})
+		}
+	})
 	// deep interval stacks: damped zig-zags and inward spirals keep one interval pending per point
 	for _, n := range []int{20, 40, 60, 100, 200} {
 		for _, damp := range []float64{0.96875, 0.875, 0.75} {
